@@ -146,6 +146,15 @@ class ModelTable:
             for k, val in zip(v.keys, v.values):
                 if isinstance(k, ast.Constant):
                     out[str(k.value)] = val.value if isinstance(val, ast.Constant) else ast.unparse(val)
+        elif v is not None:
+            # a named configuration constant (`model_config = ALLOW_EXTRA`, possibly imported or wrapped in dict(...))
+            from .consteval import try_fold
+
+            inner = v.args[0] if isinstance(v, ast.Call) and len(v.args) == 1 and not v.keywords else v
+            val = try_fold(self.P, ci.module, inner)
+            if isinstance(val, dict):
+                for k, x in val.items():
+                    out[str(k)] = x if not hasattr(x, "text") else str(x)
         return out
 
     def _field(self, ci: ClassInfo, n: ast.AnnAssign) -> FieldInfo:
